@@ -16,7 +16,10 @@ use self::config::{
 };
 use crate::{
     config::{create_owned_dir, get_user_antnode_data_dir},
-    helpers::{check_port_availability, get_start_port_if_applicable, increment_port_option},
+    helpers::{
+        check_port_availability, check_port_ranges_disjoint, get_start_port_if_applicable,
+        increment_port_option,
+    },
     VerbosityLevel, DAEMON_SERVICE_NAME,
 };
 use ant_service_management::{
@@ -77,6 +80,7 @@ pub async fn add_node(
         port_option.validate(options.count.unwrap_or(1))?;
         check_port_availability(port_option, &node_registry.nodes)?;
     }
+    check_port_ranges_disjoint(&[&options.node_port, &options.metrics_port, &options.rpc_port])?;
 
     let owner = match &options.owner {
         Some(owner) => {
